@@ -212,7 +212,8 @@ def project(kind, r):
 
 
 def judge(name, mode, x, rets, out, shape=0):
-    """rets: [(ret, injected)] of the expected system call inside the case; out: (kind, val, extra) reported by
+    """rets: [(ret, injected, nr)] of every system call the calling thread made inside the case (markers excluded,
+    whatever the number: which of several equivalent calls a wrapper uses is not judged); out: (kind, val, extra) reported by
     the probe or None when the case never reached END. Returns (violations [(sig, what)], inconclusive text)."""
     info = TABLE[name]
     row = name
@@ -224,18 +225,22 @@ def judge(name, mode, x, rets, out, shape=0):
         if out is None:
             return [], "%s: the probe stopped inside the case before any system call" % row
         return [("C09/%s/no-syscall-issued" % name,
-                 "the wrapper answered %s(%d) without entering the kernel: no system call %d between the markers "
-                 "(argument shape %s)" % (["Ok", "Err", "panic"][min(out[0], 2)], out[1], info["nr"], SHAPES[shape]))], None
+                 "the wrapper answered %s(%d) without entering the kernel: no system call between the markers "
+                 "(argument shape %s)" % (["Ok", "Err", "panic"][min(out[0], 2)], out[1], SHAPES[shape]))], None
     if mode == 0 and (rets[0][0] != x or not rets[0][1]):
         return [], "%s: sysmon did not force %d (log shows %r)" % (name, x, rets[0])
-    for r, _inj in rets[:-1] if out is not None else rets[:FORCED_N]:
+    nrs = sorted(set(t[2] for t in rets))
+    if out is not None and out[0] == 2:
+        # later system calls in the window belong to the panic runtime (the probe disarms the forcing in its hook)
+        return [("C09/%s/panic" % name, "wrapper panicked on kernel result %d" % rets[0][0])], None
+    for r, _inj, _nr in rets[:-1] if out is not None else rets[:FORCED_N]:
         if name in ("dup2", "dup3") and r == -EBUSY:
             continue  # the documented race: may repeat
         if is_err(r):
-            viol.append(("C09/%s/reissue-on-errno-%d" % (name, -r), "call issued again after error %d" % -r))
+            viol.append(("C09/%s/reissue-on-errno-%d" % (name, -r), "another system call issued after error %d (numbers %s)" % (-r, nrs)))
         else:
             viol.append(("C09/%s/reissue-on-success-value-%s" % (name, label(r)),
-                         "call issued again after the successful result %d" % r))
+                         "another system call issued after the successful result %d (numbers %s)" % (r, nrs)))
         break
     if out is None:
         return viol, None
@@ -287,17 +292,14 @@ def parse_log(path, ids):
                     k = int(p[4])
                     if k == 1:
                         w = int(p[5])
-                        cur = dict(w=w, c=int(p[6]), mode=int(p[7]), x=int(p[8]), shape=int(p[9]), tid=p[3], rets=[], others=0,
-                                   nr=TABLE[ids[w]]["nr"])
+                        cur = dict(w=w, c=int(p[6]), mode=int(p[7]), x=int(p[8]), shape=int(p[9]), tid=p[3], rets=[],
+                                   others=0)
                     elif k == 2 and cur is not None and int(p[6]) == cur["c"]:
                         fin[cur["c"]] = (cur["w"], cur["mode"], cur["x"], cur["rets"],
                                          (int(p[7]), int(p[8]), int(p[9])), cur["others"], cur["shape"])
                         cur = None
                 elif p[0] == "S" and cur is not None and p[3] == cur["tid"]:
-                    if int(p[4]) == cur["nr"]:
-                        cur["rets"].append((int(p[11]), p[12].strip() == "i"))
-                    else:
-                        cur["others"] += 1
+                    cur["rets"].append((int(p[11]), p[12].strip() == "i", int(p[4])))
             except (ValueError, IndexError):
                 continue
     inflight = (cur["c"], cur["w"], cur["mode"], cur["x"], cur["rets"], cur["shape"]) if cur else None
@@ -308,7 +310,7 @@ def run_shard(job):
     """Worker (own process): run the shard's cases under sysmon, resume after a case that hangs or crashes."""
     sid, flavour, probe, sysmon, cases, ids, wdir, timeout_s = job
     res = dict(evals=0, viol=[], incon=[], distinct=set(), samples={}, counts={}, reissue={}, per_wrapper={},
-               pairs=set(), wall=0.0)
+               pairs=set(), wall=0.0, observed={})
     cnt = res["counts"]
 
     def bump(k, n=1):
@@ -322,6 +324,9 @@ def run_shard(job):
             return
         res["evals"] += 1
         r_last = rets[-1][0] if rets else None
+        if rets:
+            res["observed"].setdefault(name, set()).add(rets[0][2])
+            res["distinct"].add("%s/nr-%d" % (name, rets[0][2]))
         pw = res["per_wrapper"].setdefault(name, [0, 0, 0, 0, 0])
         if mode == 0 and shape:
             bump("corner_shape_cases")
@@ -355,11 +360,9 @@ def run_shard(job):
             bump("cases_with_reissue")
             key = "%s/%s" % (name, label(rets[0][0]))
             res["reissue"][key] = max(res["reissue"].get(key, 0), len(rets))
-        if others:
-            bump("other_syscalls_inside_cases", others)
         case = dict(wrapper=name, build=flavour, mode="forced" if mode == 0 else "real", arguments=SHAPES[shape],
                     forced_result=x if mode == 0 else None, variant=x if mode else None,
-                    issued=[r for r, _ in rets[:3]] + (["... %d issues" % len(rets)] if len(rets) > 3 else []),
+                    syscall_numbers=sorted(set(t[2] for t in rets)), issued=[t[0] for t in rets[:3]] + (["... %d issues" % len(rets)] if len(rets) > 3 else []),
                     reported=None if out is None else dict(kind=["Ok", "Err", "panic", "setup"][out[0]],
                                                            value=out[1], extra=out[2]))
         for sig, what in v:
@@ -588,6 +591,7 @@ def run(ck, replay=None):
     viol = []
     per_wrapper = {}
     reissue = {}
+    observed = {}
     pairs = set()
     for r in results:
         ck.add_eval(r["evals"])
@@ -604,6 +608,8 @@ def run(ck, replay=None):
                 a[i] += v[i]
         for k, n in r["reissue"].items():
             reissue[k] = max(reissue.get(k, 0), n)
+        for name, nrs in r["observed"].items():
+            observed.setdefault(name, set()).update(nrs)
         pairs |= r["pairs"]
     # samples: violating cases, then forced errors / forced successes / real calls in turn, distinct wrappers
     seen = set()
@@ -628,6 +634,12 @@ def run(ck, replay=None):
     ck.extra["per_wrapper_cases"] = {n: dict(forced_errors=v[0], forced_successes=v[1], real_successes=v[2],
                                              real_errors=v[3], corner_shape_cases=v[4]) for n, v in sorted(per_wrapper.items())}
     ck.extra["reissue_max_issues"] = reissue
+    # the table's number is informational: a wrapper may use any equivalent system call
+    ck.extra["observed_syscall_numbers"] = {n: sorted(v) for n, v in sorted(observed.items())}
+    differs = {n: dict(expected=TABLE[n]["nr"], observed=sorted(v)) for n, v in sorted(observed.items())
+               if v != {TABLE[n]["nr"]}}
+    if differs:
+        ck.extra["syscall_number_differs_from_table_note"] = differs
     ck.extra["argument_shapes"] = {n: [SHAPES[t] for t in v] for n, v in sorted(shapes.items()) if v}
     ck.count("wrapper_argument_shapes", sum(1 + len(v) for v in shapes.values()))
     ck.extra["builds"] = [f for f, _ in flavours]
@@ -642,6 +654,9 @@ def run(ck, replay=None):
     ck.exhaustive = bool(full)
     ck.extra["errno_range_exhaustive"] = bool(full)
     ck.extra["errno_cases_for_exhaustive_run"] = want_err
+    ck.assume("the forcing is number-agnostic: inside a case every non-marker system call of the calling thread is the "
+              "wrapper's (the first one is forced, all are counted); the table's system call number is informational, a "
+              "different observed number is an evidence note, never a violation; no wrapper at HEAD makes more than one call")
     ck.assume("sysmon (ptrace) suppresses the system call and writes the forced value into the return register; "
               "the first forced value of every case is cross-checked against the log")
     ck.assume("value-compared success values are limited to what the kernel can return for the call's result type; "
@@ -650,7 +665,7 @@ def run(ck, replay=None):
     ck.assume("argument corner shapes (equal / 0 / i32::MAX descriptors, empty paths and buffers, zero and extreme "
               "scalars) are only run with forced results, so the kernel never acts on them; a wrapper that answers "
               "without a system call of the expected number is a violation (no-syscall-issued)")
-    ck.assume("x86_64 system call numbers; dup2/dup3 may repeat the call after EBUSY, nothing else may repeat")
+    ck.assume("dup2/dup3 may repeat the call after EBUSY, nothing else may issue a second system call")
     ck.assume("excluded: exit, rt_sigreturn (never return), setup_io_uring (compound, C12/C18), "
               "clock_get_real_time/clock_get_monotonic_time (no Result)")
     return ("for each of the %d public wrappers (%d rows with second argument shapes): forced kernel results -e for %s, every success class of the result type "
@@ -660,7 +675,8 @@ def run(ck, replay=None):
             "the same forced decode (7 errnos + every success class) for each argument corner shape the signature allows "
             "(equal descriptors, descriptor 0 / i32::MAX, empty path, equal paths, empty buffers, zero / extreme scalars), "
             "and real calls on harmless arguments (descriptor 16 provoked for descriptor-returning calls, dup targets "
-            "3/15/16/17); each case judged on the logged return values of the expected system call between its markers "
+            "3/15/16/17); each case judged on the logged return values of all system calls of the calling thread between its markers, "
+            "whatever their number "
             "(count of issues, Err/Ok, code, value); distinct = (wrapper, errno class | success value class | real outcome | shape x err/ok); the exhaustive flag refers to the "
             "(wrapper, errno) fault space, success values are classes plus seeded samples"
             % (len(set(SOURCE_NAME.get(n, n) for n in TABLE)), len(TABLE), "every errno 1..=4095 (debug build)" if quick else "every errno 1..=4095 (debug and release build)"))
